@@ -755,5 +755,117 @@ Section cover.
       eapply (root_input_elsewhere co o rank C1 C2 C3 Hav gs Hgrow r S r' S' f); try done; [apply co_bound|].
       unfold fanin. by rewrite Hk.
     Qed.
+
+    Lemma root_in_dom r S : (r, S) ∈ gs → r ∈ dom (c_g (mk_sg co r S)).
+    Proof.
+      intros Hin. pose proof Hgrow as Hg. rewrite Forall_forall in Hg. destruct (Hg _ Hin) as (HrS & Hroot & _). simpl in *.
+      assert (r ∈ dom co) as [k Hk]%elem_of_dom.
+      { destruct Hroot as [->|Hl]; [done|]. unfold sg_split_above in Hl.
+        destruct (kids_two co o rank C1 C2 C3 Hav r Hl) as (c & _ & _ & Hc & _).
+        by apply (kids_elem co o rank C1 C2 C3 Hav) in Hc as (? & _). }
+      destruct (mk_sg_lookup_intro co r S r k HrS Hk) as (i & Hi & _). by eapply elem_of_dom_2.
+    Qed.
   End one_cone.
+
+  (* ---- the filters keep every supergate when there is one output ---- *)
+  Lemma dedupe_complete l : ∀ acc r, dedupe l acc = Some r → (∀ s, s ∈ l → s ∈ r) ∧ (∀ s, s ∈ acc → s ∈ r).
+  Proof.
+    induction l as [|x l IH]; simpl; intros acc r H.
+    - injection H as <-. split; [by intros ? ?%elem_of_nil|]. intros s Hs. by apply elem_of_reverse.
+    - destruct (list_find _ acc) as [[i t]|] eqn:Ef.
+      + case_bool_decide as Heq; [|done]. subst t. destruct (IH _ _ H) as [H1 H2]. split; [|done].
+        intros s [->|Hs]%elem_of_cons; [|by apply H1]. apply H2. apply list_find_Some in Ef as (Hi & _). by eapply elem_of_list_lookup_2.
+      + destruct (IH _ _ H) as [H1 H2]. split.
+        * intros s [->|Hs]%elem_of_cons; [apply H2; by left|by apply H1].
+        * intros s Hs. apply H2. by right.
+  Qed.
+  Lemma dedupe_nodup l : ∀ acc r, dedupe l acc = Some r →
+    NoDup ((λ s, dom (c_g s)) <$> acc) → NoDup ((λ s, dom (c_g s)) <$> r).
+  Proof.
+    induction l as [|x l IH]; simpl; intros acc r H Hnd.
+    - injection H as <-. rewrite fmap_reverse. by rewrite reverse_Permutation.
+    - destruct (list_find _ acc) as [[i t]|] eqn:Ef.
+      + case_bool_decide; [|done]. by eapply IH.
+      + eapply IH; [done|]. simpl. constructor; [|done]. apply list_find_None in Ef. rewrite Forall_forall in Ef.
+        intros (t & Heq & Ht)%elem_of_list_fmap. by apply (Ef t Ht).
+  Qed.
+  Lemma others_elem {X} (l : list X) k t : t ∈ others l k → ∃ j, j ≠ k ∧ l !! j = Some t.
+  Proof.
+    unfold others. intros [Ht|Ht]%elem_of_app.
+    - apply elem_of_list_lookup in Ht as [j Hj]. pose proof (lookup_lt_Some _ _ _ Hj) as Hlt. rewrite take_length in Hlt.
+      exists j. split; [lia|]. rewrite lookup_take in Hj by lia. done.
+    - apply elem_of_list_lookup in Ht as [j Hj]. rewrite lookup_drop in Hj. exists (S k + j). split; [lia|done].
+  Qed.
+  Lemma minimal_cover_keep l k s : l !! k = Some s → ¬ dom (c_g s) ⊆ ⋃ (gates_of <$> others l k) → s ∈ minimal_cover l.
+  Proof.
+    intros Hk Hn. unfold minimal_cover. apply elem_of_list_omap. exists (k, s). split.
+    - apply elem_of_lookup_imap. eauto.
+    - simpl. by rewrite bool_decide_eq_false_2.
+  Qed.
+  Lemma filter_key_nodup {X} (P : string * X → Prop) `{∀ q, Decision (P q)} (l : list (string * X)) :
+    NoDup l.*1 → NoDup (filter P l).*1.
+  Proof.
+    induction l as [|q l IH]; simpl; [done|]. intros [Hq Hnd]%NoDup_cons. rewrite filter_cons. destruct (decide (P q)); simpl; [|by apply IH].
+    constructor; [|by apply IH]. intros (q' & Heq & [_ Hin]%elem_of_list_filter)%elem_of_list_fmap. apply Hq. apply elem_of_list_fmap. eauto.
+  Qed.
+  Lemma key_eq {X} (m : list (string * X)) p q : NoDup m.*1 → p ∈ m → q ∈ m → p.1 = q.1 → p = q.
+  Proof.
+    intros Hnd [a Ha]%elem_of_list_lookup [b Hb]%elem_of_list_lookup He.
+    assert (a = b) as ->; [|congruence].
+    eapply (NoDup_lookup _ _ _ _ Hnd); rewrite list_lookup_fmap; [by rewrite Ha|rewrite Hb; simpl; by rewrite He].
+  Qed.
+  Lemma kahn_complete fuel : ∀ left done r, kahn fuel L left done = Some r → NoDup left.*1 → ∀ p, p ∈ left ∨ p ∈ done → p ∈ r.
+  Proof.
+    induction fuel as [|k IH]; intros left dn r H Hnd p Hp; simpl in H; [done|].
+    destruct left as [|q0 left0] eqn:El.
+    { injection H as <-. destruct Hp as [Hp|Hp]; [by apply elem_of_nil in Hp|done]. }
+    rewrite <- El in *. clear El q0 left0.
+    set (ready := filter (λ p : string * Circuit, Is_true (forallb (λ q : string * Circuit, bool_decide (q.1 = p.1) || negb (depends L p.2 q.2)) left)) left) in *.
+    destruct ready as [|rd rds] eqn:Er; [done|]. rewrite <- Er in *. clear Er rd rds.
+    apply (IH _ _ _ H); [by apply filter_key_nodup|].
+    destruct Hp as [Hp|Hp]; [|right; apply elem_of_app; by left].
+    destruct (decide (p.1 ∈ ready.*1)) as [Hin|Hnin].
+    - right. apply elem_of_app. right. apply elem_of_list_fmap in Hin as (q & Heq & Hq).
+      assert (q = p) as <-; [|done]. apply (key_eq left); try done. by apply elem_of_list_filter in Hq as [_ ?].
+    - left. by apply elem_of_list_filter.
+  Qed.
+
+  (* every gate in the cone of the single output lies in a returned supergate *)
+  Theorem supergates_cover_single o sgs : outputs L = {[o]} → supergates L = Ok sgs →
+    ∀ n, reach L n o → n ∉ inputs L → ∃ sg, sg ∈ sgs ∧ n ∈ gates (c_g sg).
+  Proof.
+    intros Hout Hsg n Hreach Hni. unfold supergates in Hsg. destruct (minimal_supergates L) as [m| | |] eqn:Em; unfold rbind in Hsg; try done.
+    destruct (kahn (S (length m)) L m []) as [lk|] eqn:Ek; [|done]. injection Hsg as <-.
+    unfold minimal_supergates in Em. destruct (has_bb L); [done|]. rewrite Hout, elements_singleton in Em. simpl in Em.
+    destruct (cone_supergates L o) as [lc|] eqn:Ec; simpl in Em; [|done].
+    destruct (dedupe (lc ++ []) []) as [all|] eqn:Ed; [|done]. destruct (keyed (minimal_cover all)) as [m'|] eqn:Ekd; [|done].
+    injection Em as <-.
+    assert (o ∈ dom L) as HoL. { assert (o ∈ outputs L) as Ho by (rewrite Hout; set_solver). apply elem_of_outputs in Ho as (i & Hi & _). by eapply elem_of_dom_2. }
+    unfold cone_supergates in Ec. case_bool_decide as Hcert; [|done]. destruct Hcert as (Hup & Hav & Hgrow & Hfront).
+    assert (n ∈ tfi_star L o) as Hn by (by apply (up_ok_reach L o n Hup)).
+    apply (inj Some) in Ec. set (co := cone L o) in *. set (gs := grow_all (S (size co)) _ [o]) in *.
+    assert (∃ r S, (r, S) ∈ gs ∧ n ∈ gates (c_g (mk_sg (cone L o) r S))) as (r & S & Hin & Hgate) by (eapply cone_cover; eauto). fold co in Hgate.
+    set (sg := mk_sg co r S) in *.
+    assert (sg ∈ lc) as Hlc. { rewrite <- Ec. apply elem_of_list_fmap. by exists (r, S). }
+    destruct (dedupe_complete _ _ _ Ed) as [Hall _].
+    assert (sg ∈ all) as Hsall by (apply Hall, elem_of_app; by left).
+    pose proof (dedupe_nodup _ _ _ Ed (NoDup_nil_2)) as Hnd.
+    apply elem_of_list_lookup in Hsall as [k Hk].
+    assert (sg ∈ minimal_cover all) as Hmin.
+    { apply (minimal_cover_keep all k sg Hk). intros Hsub.
+      assert (r ∈ dom (c_g (mk_sg (cone L o) r S))) as Hrd by (eapply root_in_dom; eauto). fold co in Hrd. fold sg in Hrd.
+      apply Hsub in Hrd. apply elem_of_union_list in Hrd as (X & HX & HrX). apply elem_of_list_fmap in HX as (t & -> & Ht).
+      apply others_elem in Ht as (j & Hjk & Hj).
+      assert (t ∈ lc) as Htl.
+      { destruct (dedupe_sub _ _ _ Ed t (elem_of_list_lookup_2 _ _ _ Hj)) as [Ht|Ht]; [|by apply elem_of_nil in Ht].
+        apply elem_of_app in Ht as [|Ht]; [done|by apply elem_of_nil in Ht]. }
+      rewrite <- Ec in Htl. apply elem_of_list_fmap in Htl as ([r' S'] & -> & Hin'). simpl in *.
+      destruct (decide (r = r')) as [<-|Hne].
+      - assert ((r, S) = (r, S')) as E by (apply (key_eq gs); try done; by destruct Hfront). injection E as <-.
+        apply Hjk. eapply (NoDup_lookup _ _ _ _ Hnd); rewrite list_lookup_fmap; [by rewrite Hj|by rewrite Hk].
+      - assert (r ∉ gates (c_g (mk_sg (cone L o) r' S'))) as Hno by (eapply root_not_gate_elsewhere; eauto). by apply Hno. }
+    pose proof (keyed_snd _ _ Ekd) as Hsnd. rewrite <- Hsnd in Hmin. apply elem_of_list_fmap in Hmin as ([o' s'] & Heq & Hm). simpl in Heq. subst s'.
+    exists sg. split; [|done]. apply elem_of_list_fmap. exists (o', sg). split; [done|].
+    eapply kahn_complete; [done|by eapply keyed_nodup|by left].
+  Qed.
 End cover.
